@@ -222,8 +222,12 @@ func runPersistCase(work string, c *PersistCase) {
 				c.Err = fmt.Sprintf("step %d: no answer to the append", i)
 				return
 			}
-			_, st.LastAt = store.GetFirstLast()
-			hs, _ := store.HardState()
+			var hs raftpb.HardState
+			st.LastAt, hs, err = imageState(dir)
+			if err != nil {
+				c.Err = fmt.Sprintf("step %d: image: %v", i, err)
+				return
+			}
 			st.Msg, st.Index, st.Term, st.Gated, st.TermAt, st.VoteAt = "appresp", m.Index, m.Term, g, hs.Term, hs.Vote
 			last, lastTerm = want, term
 			// DIRECT ORACLE: an acknowledged append is in the storage directory when the acknowledgement leaves the node
@@ -240,8 +244,12 @@ func runPersistCase(work string, c *PersistCase) {
 				c.Err = fmt.Sprintf("step %d: no answer to the vote request", i)
 				return
 			}
-			hs, _ := store.HardState()
-			_, st.LastAt = store.GetFirstLast()
+			var hs raftpb.HardState
+			st.LastAt, hs, err = imageState(dir)
+			if err != nil {
+				c.Err = fmt.Sprintf("step %d: image: %v", i, err)
+				return
+			}
 			st.Msg, st.Term, st.Gated, st.TermAt, st.VoteAt = "voteresp", m.Term, g, hs.Term, hs.Vote
 			// DIRECT ORACLE: a granted vote (and its term) is durable when it leaves the node - else the member can vote twice
 			if !m.Reject && (hs.Term < m.Term || hs.Vote != 3) {
@@ -252,6 +260,24 @@ func runPersistCase(work string, c *PersistCase) {
 			drainUntilQuiet()
 		}
 	}
+}
+
+// imageState: what a SIGKILL at this instant leaves - a copy of the storage directory (file level, no lock of the
+// running store is taken: the node may be blocked inside Save), reopened as a restart would
+func imageState(dir string) (uint64, raftpb.HardState, error) {
+	img := dir + fmt.Sprintf("-img-%d", time.Now().UnixNano())
+	defer os.RemoveAll(img)
+	if err := crashfs.CopyTree(dir, img); err != nil {
+		return 0, raftpb.HardState{}, err
+	}
+	st, err := raftlog.Init(img, 0)
+	if err != nil {
+		return 0, raftpb.HardState{}, err
+	}
+	defer st.Close()
+	_, last := st.GetFirstLast()
+	hs, err := st.HardState()
+	return last, hs, err
 }
 
 func genPersist(r prng) *PersistCase {
